@@ -319,16 +319,15 @@ Qed.
     concatenation of the periods' expanded timelines is the single-period timeline restricted to
     [k0*P*ts, (k1+1)*P*ts); each period holds exactly the segments that start inside it; its
     presentationTimeOffset is its start in the media timescale. *)
-Theorem splitPeriod_partition pph seg mode cont ast snr st now ases ps j a es :
-  1 <= pph <= 3600 -> 0 < seg -> ast <= st <= now ->
-  splitPeriod false pph seg mode cont ast snr st now ases = Ok ps ->
+Lemma partition_range mode cont snr ases ps j a es P ka kb :
+  1 <= P -> 0 <= ka <= kb ->
+  Forall2 (fun k p => pd_nr p = k /\ pd_start p = k * P /\
+                      Forall2 (fun a o => splitAS mode cont snr k P a = Ok o) ases (pd_as p))
+          (seqZ ka (Z.to_nat (kb - ka + 1))) ps ->
   nth_error ases j = Some a -> templateType mode a <> MNumber -> a_tl a = Some es ->
-  let P := periodDurOf pph in
-  let k0 := (st - ast) / (P * 1000) in
-  let k1 := (now - ast) / (P * 1000) in
   let ts := tsOf a in
-  goodTL es (snrFor mode a) ts ((k1 + 1) * P) ->
-  flat_map (periodTimeline j) ps = filter (inWin (k0 * P * ts) ((k1 + 1) * P * ts)) (expandP es) /\
+  goodTL es (snrFor mode a) ts ((kb + 1) * P) ->
+  flat_map (periodTimeline j) ps = filter (inWin (ka * P * ts) ((kb + 1) * P * ts)) (expandP es) /\
   Forall (fun p => periodTimeline j p = filter (inWin (pd_nr p * P * ts) ((pd_nr p + 1) * P * ts)) (expandP es) /\
                    periodPTO j p = Some (pd_start p * ts) /\
                    (mode = MTimelineNr ->
@@ -337,12 +336,8 @@ Theorem splitPeriod_partition pph seg mode cont ast snr st now ases ps j a es :
                           then startNrOf (a_startNr a) + countBefore (pd_nr p * P * ts) (expandP es)
                           else startNrOf (a_startNr a)))) ps.
 Proof.
-  intros Hpph Hseg Hst H Hj Hm Htl P k0 k1 ts G.
-  pose proof (periodDur_pos pph Hpph) as HP. fold P in HP.
-  destruct (splitPeriod_structure pph seg mode cont ast snr st now ases ps Hpph Hseg ltac:(lia) ltac:(lia) H) as [_ F].
-  fold P k0 k1 in F.
-  assert (Hk0 : 0 <= k0) by (unfold k0; apply Z.div_pos; lia).
-  assert (Hk01 : k0 <= k1) by (unfold k0, k1; apply Z.div_le_mono; lia).
+  intros HP [Hk0 Hk01] F Hj Hm Htl ts G.
+  set (k0 := ka) in *. set (k1 := kb) in *.
   assert (Hs : sortedT (expandP es)).
   { destruct G. apply chain_sorted; [|assumption]. eapply Forall_impl; [|exact g_range0]. cbn; intros; lia. }
   assert (Hts : 0 < ts) by (destruct G; lia).
@@ -378,6 +373,33 @@ Proof.
     + rewrite filter_win_seq by (assumption || lia). do 2 f_equal. lia.
     + eapply Forall2_impl; [|exact Each]. cbn beta. intros k p [E _]. exact E.
   - eapply Forall2_Forall_r; [exact Each|]. cbn beta. intros k p [_ E]. exact E.
+Qed.
+
+Theorem splitPeriod_partition pph seg mode cont ast snr st now ases ps j a es :
+  1 <= pph <= 3600 -> 0 < seg -> ast <= st <= now ->
+  splitPeriod false pph seg mode cont ast snr st now ases = Ok ps ->
+  nth_error ases j = Some a -> templateType mode a <> MNumber -> a_tl a = Some es ->
+  let P := periodDurOf pph in
+  let k0 := (st - ast) / (P * 1000) in
+  let k1 := (now - ast) / (P * 1000) in
+  let ts := tsOf a in
+  goodTL es (snrFor mode a) ts ((k1 + 1) * P) ->
+  flat_map (periodTimeline j) ps = filter (inWin (k0 * P * ts) ((k1 + 1) * P * ts)) (expandP es) /\
+  Forall (fun p => periodTimeline j p = filter (inWin (pd_nr p * P * ts) ((pd_nr p + 1) * P * ts)) (expandP es) /\
+                   periodPTO j p = Some (pd_start p * ts) /\
+                   (mode = MTimelineNr ->
+                    periodStartNr j p =
+                    Some (if reaches (pd_nr p * P * ts) (expandP es)
+                          then startNrOf (a_startNr a) + countBefore (pd_nr p * P * ts) (expandP es)
+                          else startNrOf (a_startNr a)))) ps.
+Proof.
+  intros Hpph Hseg Hst H Hj Hm Htl P k0 k1 ts G.
+  pose proof (periodDur_pos pph Hpph) as HP. fold P in HP.
+  destruct (splitPeriod_structure pph seg mode cont ast snr st now ases ps Hpph Hseg ltac:(lia) ltac:(lia) H) as [_ F].
+  fold P k0 k1 in F.
+  assert (Hk0 : 0 <= k0) by (unfold k0; apply Z.div_pos; lia).
+  assert (Hk01 : k0 <= k1) by (unfold k0, k1; apply Z.div_le_mono; lia).
+  exact (partition_range mode cont snr ases ps j a es P k0 k1 ltac:(lia) ltac:(lia) F Hj Hm Htl G).
 Qed.
 
 (** * Corollaries of the partition *)
